@@ -2,31 +2,31 @@ INIT GenInit
 NEXT GenNext
 CONSTANTS
   Req = {"r1", "r2", "r3"}
-  Keys = {"k1"}
+  Keys = {"k1", "k2"}
   Disp = {"d1"}
   Purgers = {}
   HasStore <- MC_HasStore
   Limit <- MC_Limit
   ShardOf <- MC_ShardOf
   HfpTTL <- MC_HfpTTL
-  Methods = {"GET", "POST"}
-  TTLs = {1}
+  Methods = {"GET"}
+  TTLs = {1, 2}
   Outcomes = {"cacheable", "uncacheable", "error"}
-  LoadResults = {}
-  SaveResults = {TRUE}
+  LoadResults = {"ok", "notfound", "error", "cut_s", "cut_r", "cut_c", "badstatus"}
+  SaveResults = {TRUE, FALSE}
   Jumps = {1}
   MaxTicks = 4
-  MaxStarts = 6
-  MaxVer = 6
-  MaxEnt = 1
+  MaxStarts = 8
+  MaxVer = 8
+  MaxEnt = 8
   MaxPurges = 0
-  MaxKills = 0
-  MaxDrops = 0
+  MaxKills = 2
+  MaxDrops = 1
   UnnamedPurge = FALSE
   ResumeRelooks = TRUE
   AgeAtDecision = TRUE
   LoadAtomic = TRUE
   PurgeFences = TRUE
   Ghost = TRUE
-  GenDepth = 60
+  GenDepth = 70
 INVARIANT Emit
